@@ -39,12 +39,15 @@ RULE_E = ("the batch stream again on a CompassApp with the energy_model traversa
           "indices compared bit for bit across repeated runs, parallelism, orders, thread pools and each query alone; first "
           "the corpus witness: one query 300 times in a row must give one distinct response (fixed 147ae1b, d268fda)")
 
-RULE_EC = ("DECIDING cache family: the energy stream with float_cache_policy {key_precisions [0,0]} enabled in every "
-           "application under test (real_world_energy_adjustment 1.166), on inputs where no two distinct (speed, grade) "
-           "lookups share a cache key: integer km/h speed table read in the key's unit, no grade table; there the cache "
-           "is transparent (c06_cache_transparent_if_stable), so the returned vector, the sink content and 300 repeated runs "
-           "must equal bit for bit the model composed from, and each query run alone on, an application WITHOUT cache; "
-           "warm and cold cache states are both visited (applications are reused across cases and repetitions)")
+RULE_EC = ("DECIDING cache family: the energy stream with float_cache_policy enabled in every application under test "
+           "(real_world_energy_adjustment 1.166), key_precisions [0,0], [1,2] or [2,2] by plugin/termination variant, on speed "
+           "and grade tables whose values lie exactly on the key grid (speeds 30/45/60/72 or 30/45.5/60/72.5 km/h read in the "
+           "key's unit; grades -2..2 or -0.03..0.03 in steps of one key unit, both signs), so that under the real key function "
+           "(round half away from zero) no two distinct (speed, grade) lookups share a key and many links share the same one: "
+           "there the cache is transparent (c06_cache_transparent_if_stable), so the returned vector, the sink content and "
+           "300 repeated runs must equal bit for bit the model composed from, and each query run alone on, an application "
+           "WITHOUT cache reading the same tables; warm and cold cache states are both visited (applications are reused "
+           "across cases and repetitions); off-grid / colliding inputs stay in the informational `cache` probe")
 
 K_ID = "K_child_error_drops_siblings"
 
